@@ -1,6 +1,10 @@
-"""C12 -- report totals, category parts and severity headings agree with the findings shown: bounded contract (native harness, rep.rs)."""
-from . import bounded
+"""C12 -- report totals, category parts and severity headings agree with the findings shown (mixed, mostly bounded).
+
+Verus (unit sections): get_vulnerability_report_section returns, for every vulnerability pattern, the severity the property
+names (selfdestruct high, divide-before-multiply medium, ERC20 and pragma low) together with that pattern's own section.
+Bounded (native rep.rs): totals, category parts, headings printed iff a finding of that severity exists."""
+from . import c11
 
 
 def run(tier, seed):
-    return bounded.run_bounded("C12", "c12", tier, seed, "printed totals, category parts and severity headings agree with the listed entries")
+    return c11.run(tier, seed, prop="C12", native="c12")
